@@ -17,6 +17,7 @@ import (
 	"context"
 	"errors"
 	"fmt"
+	"io"
 	"strings"
 
 	"verifharness/lib"
@@ -56,6 +57,212 @@ func progFor(env *lib.TravEnv) traversal.Progress {
 			return basicnode.Prototype.Any, nil
 		},
 	}}
+}
+
+// ---------------------------------------------------------------------------- nested use of a handed-in Progress
+// A script is a chain of steps, each started on the Progress (and node) the previous step's callback was handed:
+//
+//	F:<segs>  prog.Focus(n, path, fn)        G:<segs>  prog.Get(n, path)  (last step only)
+//	W:-       prog.WalkAdv(n, sel, fn), last step: every visit is reported
+//	W:<k>     prog.WalkAdv(n, sel, fn); the rest of the script runs inside the k-th visit (0-based), then the walk stops
+//
+// Reports: f;<Progress.Path>;<LastBlock>;<node>   g;<result>   v;<path>;<reason>;<LastBlock.Link>;<digest>
+//
+//	<LastBlock> = "^" when the focus loaded no block (LastBlock must then be what the outer Progress had),
+//	else <LastBlock.Path>@<last 6 hex of LastBlock.Link>.
+type nstep struct {
+	kind byte
+	segs []string
+	k    int
+}
+
+func scriptText(steps []nstep) string {
+	var ps []string
+	for _, st := range steps {
+		switch {
+		case st.kind == 'W' && st.k < 0:
+			ps = append(ps, "W:-")
+		case st.kind == 'W':
+			ps = append(ps, fmt.Sprintf("W:%d", st.k))
+		default:
+			ps = append(ps, string(st.kind)+":"+lib.SegsText(st.segs))
+		}
+	}
+	return strings.Join(ps, ">")
+}
+
+func parseScript(s string) []nstep {
+	var out []nstep
+	for _, p := range strings.Split(s, ">") {
+		st := nstep{kind: p[0], k: -1}
+		arg := p[2:]
+		if st.kind == 'W' {
+			if arg != "-" {
+				fmt.Sscanf(arg, "%d", &st.k)
+			}
+		} else {
+			st.segs = lib.ParseSegs(arg)
+		}
+		out = append(out, st)
+	}
+	return out
+}
+
+var loadCount int
+
+func countingProg(env *lib.TravEnv) traversal.Progress {
+	lsys := env.LSys
+	inner := lsys.StorageReadOpener
+	lsys.StorageReadOpener = func(lc linking.LinkContext, l datamodel.Link) (io.Reader, error) {
+		loadCount++
+		return inner(lc, l)
+	}
+	return traversal.Progress{Cfg: &traversal.Config{
+		Ctx:        context.Background(),
+		LinkSystem: lsys,
+		LinkTargetNodePrototypeChooser: func(datamodel.Link, linking.LinkContext) (datamodel.NodePrototype, error) {
+			return basicnode.Prototype.Any, nil
+		},
+	}}
+}
+
+var errStop = errors.New("stop")
+
+func shortLink(l datamodel.Link) string {
+	if l == nil {
+		return "-"
+	}
+	h := lib.Hex(l.Binary())
+	return h[len(h)-6:]
+}
+
+func sameLastBlock(a, b traversal.Progress) bool {
+	if lib.SegsText(lib.PathSegs(a.LastBlock.Path)) != lib.SegsText(lib.PathSegs(b.LastBlock.Path)) {
+		return false
+	}
+	return shortLink(a.LastBlock.Link) == shortLink(b.LastBlock.Link) && (a.LastBlock.Link == nil) == (b.LastBlock.Link == nil)
+}
+
+func execScript(env *lib.TravEnv, prog traversal.Progress, n datamodel.Node, steps []nstep, rep *[]string) error {
+	st := steps[0]
+	switch st.kind {
+	case 'F':
+		before := loadCount
+		return prog.Focus(n, lib.SegsPath(st.segs), func(p2 traversal.Progress, n2 datamodel.Node) error {
+			lb := "^"
+			if loadCount > before {
+				lb = lib.SegsText(lib.PathSegs(p2.LastBlock.Path)) + "@" + shortLink(p2.LastBlock.Link)
+			} else if !sameLastBlock(prog, p2) {
+				lb = "!changed"
+			}
+			*rep = append(*rep, "f;"+lib.SegsText(lib.PathSegs(p2.Path))+";"+lb+";"+lib.Dump(n2))
+			if len(steps) == 1 {
+				return nil
+			}
+			return execScript(env, p2, n2, steps[1:], rep)
+		})
+	case 'G':
+		gn, err := prog.Get(n, lib.SegsPath(st.segs))
+		*rep = append(*rep, "g;"+resText(gn, err))
+		return nil
+	case 'W':
+		i := 0
+		err := prog.WalkAdv(n, env.Sel, func(p2 traversal.Progress, n2 datamodel.Node, r traversal.VisitReason) error {
+			defer func() { i++ }()
+			if st.k < 0 {
+				*rep = append(*rep, "v;"+lib.SegsText(lib.PathSegs(p2.Path))+";"+string(byte(r))+";"+shortLink(p2.LastBlock.Link)+";"+lib.Digest(lib.Dump(n2)))
+				return nil
+			}
+			if i != st.k {
+				return nil
+			}
+			if len(steps) > 1 {
+				if err := execScript(env, p2, n2, steps[1:], rep); err != nil {
+					return err
+				}
+			}
+			return errStop
+		})
+		if errors.Is(err, errStop) {
+			return nil
+		}
+		return err
+	}
+	return fmt.Errorf("bad step")
+}
+
+func nestedClass(err error) string {
+	if err == nil {
+		return "ok"
+	}
+	if c := getClass(err); c != "other" {
+		return c
+	}
+	return lib.WalkErrClass(err)
+}
+
+func runNested(out *lib.Out, id string, tc *lib.TravCase, steps []nstep) {
+	env, err := tc.Open()
+	if err != nil || env.SelErr != nil {
+		return
+	}
+	var rep []string
+	werr := lib.Safely(func() error { return execScript(env, countingProg(env), env.RootNode, steps, &rep) })
+	if len(rep) > 150 {
+		return
+	}
+	out.Case(id, "c14n", tc.Sel.Text(), tc.Root.Text(), tc.BlocksText(), scriptText(steps), strings.Join(rep, ",")+"|"+nestedClass(werr))
+}
+
+// nestedScripts derives scripts from the visited paths: a visited path cut into two or three focuses, a walk started
+// inside a focus, a focus started inside a visit of a walk (towards another visited path when one lies beneath).
+func nestedScripts(r *lib.Rng, paths [][]string, keys []string) [][]nstep {
+	if len(paths) == 0 {
+		return nil
+	}
+	pick := func() []string { return paths[r.Intn(len(paths))] }
+	cut := func(p []string) ([]string, []string) {
+		i := 0
+		if len(p) > 0 {
+			i = r.Intn(len(p) + 1)
+		}
+		return append([]string{}, p[:i]...), append([]string{}, p[i:]...)
+	}
+	beneath := func(k int) []string { // a visited path strictly beneath visit k, relative to it
+		base := paths[k]
+		var c [][]string
+		for _, q := range paths {
+			if len(q) > len(base) && lib.SegsText(q[:len(base)]) == lib.SegsText(base) {
+				c = append(c, q[len(base):])
+			}
+		}
+		if len(c) == 0 || r.Chance(20) {
+			if len(keys) > 0 {
+				return []string{keys[r.Intn(len(keys))]}
+			}
+			return []string{"0"}
+		}
+		return c[r.Intn(len(c))]
+	}
+	var out [][]nstep
+	a, b := cut(pick())
+	out = append(out, []nstep{{kind: 'F', segs: a}, {kind: 'F', segs: b}})
+	a, b = cut(pick())
+	b1, b2 := cut(b)
+	out = append(out, []nstep{{kind: 'F', segs: a}, {kind: 'F', segs: b1}, {kind: 'F', segs: b2}})
+	a, b = cut(pick())
+	out = append(out, []nstep{{kind: 'F', segs: a}, {kind: 'G', segs: b}})
+	a, _ = cut(pick())
+	out = append(out, []nstep{{kind: 'F', segs: a}, {kind: 'W', k: -1}})
+	k := r.Intn(len(paths))
+	out = append(out, []nstep{{kind: 'W', k: k}, {kind: 'F', segs: beneath(k)}})
+	a, _ = cut(pick())
+	out = append(out, []nstep{{kind: 'F', segs: a}, {kind: 'W', k: r.Intn(3)}, {kind: 'F', segs: []string{oddSegs[r.Intn(6)]}}})
+	k = r.Intn(len(paths))
+	bn := beneath(k)
+	c1, c2 := cut(bn)
+	out = append(out, []nstep{{kind: 'W', k: k}, {kind: 'F', segs: c1}, {kind: 'F', segs: c2}})
+	return out
 }
 
 func resText(n datamodel.Node, err error) string {
@@ -328,6 +535,13 @@ func main() {
 					panic(err)
 				}
 				runVisits(out, f[0], tc)
+			case len(f) >= 7 && f[1] == "c14n":
+				tc := &lib.TravCase{Sel: mustVal(f[2]), Root: mustVal(f[3])}
+				var err error
+				if tc.Blocks, err = lib.ParseBlocks(f[4]); err != nil {
+					panic(err)
+				}
+				runNested(out, f[0], tc, parseScript(f[5]))
 			case len(f) >= 6 && f[1] == "c14p":
 				tc := &lib.TravCase{Sel: lib.Map(), Root: mustVal(f[2])}
 				var err error
@@ -375,6 +589,9 @@ func main() {
 		}
 		// arbitrary paths around the visited ones
 		keys := tc.AllKeys()
+		for j, sc := range nestedScripts(rng, paths, keys) {
+			runNested(out, fmt.Sprintf("p%d.n%d", i, j), tc, sc)
+		}
 		np := 6
 		for j := 0; j < np; j++ {
 			var base []string
